@@ -346,6 +346,12 @@ func workMain(args []string) int {
 			return 3
 		}
 		mp, md, mv, tries := Minimise(prop, params, dec, v, *tier, race, 400, x.IsKnown)
+		if mv == nil && strings.HasPrefix(v.Sig, "cpu:") {
+			// a time measurement that does not repeat is noise of the machine (other
+			// processes, page faults), not a property of the code: counted, not reported
+			st.Count("time_budget_exceeded_but_not_repeatable", 1)
+			continue
+		}
 		if mv == nil {
 			// does not even reproduce in-process: infrastructure trouble
 			fmt.Fprintf(os.Stderr, "NOT-REPRODUCIBLE in-process: %s (run_seed=%d)\n", v.String(), runSeed)
